@@ -10,7 +10,7 @@ L = env.lib()
 
 ID = "C14"
 LEVEL = "exploration"
-RULE = ("(a) concurrent: counter start in {0,1,5,2^32-4..2^32-1} set on a fresh connected device (no live streams), then 2-3 concurrent opens (shell / stat / streaming_shell kept open / an OPEN the device never answers / a caller that closes, reconnects and opens) under the "
+RULE = ("(a) concurrent: counter start in {0,1,5,2^32-4..2^32-1} set on a fresh connected device (no live streams), then 2-3 concurrent opens (shell / stat / streaming_shell kept open / an OPEN the device never answers / an OPEN answered only after the caller timed out / a caller that closes, reconnects and opens) under the "
         "cooperative thread scheduler with OPCODE-level preemption inside _open (every bytecode of the id allocation is a yield point) plus lock/transport yield points, Hypothesis-generated schedules and "
         "complete enumeration of all schedules with <=1 (quick) / <=2 (thorough) preemptions for 5 workloads x 3 counter starts; asyncio task scheduler for the async API. (b) sequential histories of up to 8 opens "
         "across the 2^32 wrap, some streams kept open. Oracle = monitor: every OPEN arg0 in [1,2^32-1]; no two streams live at the same time share arg0; every operation returns the model's value. "
@@ -18,7 +18,7 @@ RULE = ("(a) concurrent: counter start in {0,1,5,2^32-4..2^32-1} set on a fresh 
 ASSUMPTIONS = ["the counter is preset through the object's id-counter attribute to reach the wrap without 2^32 opens", "opcode-level tracing via sys.settrace(f_trace_opcodes) in worker threads"]
 
 STARTS = [0, 1, 5, 2 ** 32 - 4, 2 ** 32 - 3, 2 ** 32 - 2, 2 ** 32 - 1]
-SV = {b"shell:a": [b"<a1>", b"<a2>"], b"shell:b": [b"<b1>"], b"shell:k": [b"<k1>", b"<k2>", b"<k3>"]}
+SV = {b"shell:a": [b"<a1>", b"<a2>"], b"shell:b": [b"<b1>"], b"shell:k": [b"<k1>", b"<k2>", b"<k3>"], b"shell:slow": [b"<s1>", b"<s2>", b"<s3>", b"<s4>"]}
 FS = {b"/f": {"content": b"hello", "mode": 0o100644, "mtime": 3}}
 OPS = {
     "shell-a": {"op": "shell", "cmd": "a", "decode": False},
@@ -26,9 +26,18 @@ OPS = {
     "stat": {"op": "stat", "path": "/f"},
     "keep": {"op": "streaming_shell", "cmd": "k", "decode": False, "take": 1},
     "dead": {"op": "shell", "cmd": "dead", "decode": False, "read_timeout_s": 0.5},      # the device never answers this OPEN: the open fails with a timeout
+    # the device accepts this OPEN but answers it only after the caller's read timeout has expired (and then the stream is live on the device)
+    "slow": {"op": "shell", "cmd": "slow", "decode": False, "read_timeout_s": 0.3, "transport_timeout_s": 0.1},
     # one caller closes, reconnects and opens a stream that stays open, while other callers are in the middle of their own opens
     "reconnect-keep": {"op": "seq", "ops": [{"op": "close"}, {"op": "connect"}, {"op": "streaming_shell", "cmd": "k", "decode": False, "take": 1}]},
 }
+
+
+def compare(case, op, res):
+    """expect.compare, except that the late-answered OPEN may legitimately succeed when enough (virtual) time passed meanwhile."""
+    if op.get("cmd") == "slow" and res.get("ok") == b"<s1><s2><s3><s4>":
+        return None
+    return expect.compare(case, op, res, case["device"])
 
 
 def id_violation(out):
@@ -42,8 +51,9 @@ def id_violation(out):
     return None
 
 
-def base_case(api, names, start, dev_tape=()):
-    return {"api": api, "device": {"services": SV, "fs": FS, "ignore_open": [b"shell:dead"]}, "dev_tape": list(dev_tape), "transport": {"flavour": "raises", "log_calls": False},
+def base_case(api, names, start, dev_tape=(), flavour="raises"):
+    return {"api": api, "device": {"services": SV, "fs": FS, "ignore_open": [b"shell:dead"], "open_delay": {b"shell:slow": 0.8}}, "dev_tape": list(dev_tape),
+            "transport": {"flavour": flavour, "log_calls": False},
             "connect": {}, "ops": [dict(OPS[n]) for n in names], "_start": start}
 
 
@@ -61,7 +71,7 @@ def judge(case, r):
     if r.dropped_clse or any(o["op"] == "seq" for o in case["ops"]):
         return None     # K1 (C06) may time an operation out, a concurrent close()/connect() may fail other operations; ids were already judged
     for op, res in zip(case["ops"], r.results):
-        v = expect.compare(case, op, res, case["device"])
+        v = compare(case, op, res)
         if v is not None:
             return Violation("wrong-result:" + v.rule, v.detail)
     return None
@@ -75,7 +85,7 @@ def crossed(start, nopens):
 def conc_cases(draw, api):
     names = draw(st.lists(st.sampled_from(sorted(OPS)), min_size=2, max_size=3))
     return {"api": api, "names": names, "start": draw(st.sampled_from(STARTS)), "sched": draw(st.lists(st.integers(0, 2), max_size=400)),
-            "dev_tape": draw(st.lists(st.integers(0, 3), max_size=12))}
+            "dev_tape": draw(st.lists(st.integers(0, 3), max_size=12)), "flavour": draw(sc.flavour())}
 
 
 def inside_open(log):
@@ -83,7 +93,7 @@ def inside_open(log):
 
 
 def check_conc(c):
-    case = base_case(c["api"], c["names"], c["start"], c.get("dev_tape") or ())
+    case = base_case(c["api"], c["names"], c["start"], c.get("dev_tape") or (), c.get("flavour", "raises"))
     plan = {int(k): v for k, v in (c.get("plan") or [])} or None
     r = conc.run_concurrent(case, c.get("sched") or (), plan=plan, trace="open" if c["api"] == "sync" else None, trace_opcodes=True,
                             max_steps=60000, local_id_start=c["start"])
@@ -155,11 +165,11 @@ def enum_items(pmax):
 def seq_cases(draw):
     n = draw(st.integers(1, 8))
     return {"api": draw(st.sampled_from(["sync", "async"])), "start": draw(st.sampled_from(STARTS)), "names": draw(st.lists(st.sampled_from(sorted(OPS)), min_size=n, max_size=n)),
-            "dev_tape": draw(st.lists(st.integers(0, 3), max_size=10))}
+            "dev_tape": draw(st.lists(st.integers(0, 3), max_size=10)), "flavour": draw(sc.flavour())}
 
 
 def check_seq(c):
-    case = base_case(c["api"], c["names"], c["start"], c.get("dev_tape") or ())
+    case = base_case(c["api"], c["names"], c["start"], c.get("dev_tape") or (), c.get("flavour", "raises"))
 
     def before(out, i, op):
         if i == 1:
@@ -177,11 +187,11 @@ def check_seq(c):
             return Violation("open-id-out-of-range", "%s" % res["msg"]), info
         if op["op"] == "seq":
             for sub, sres in zip(op["ops"], res.get("ok") or []):
-                v = expect.compare(case, sub, sres, case["device"])
+                v = compare(case, sub, sres)
                 if v is not None:
                     return Violation("wrong-result:" + v.rule, v.detail), info
             continue
-        v = expect.compare(case, op, res, case["device"])
+        v = compare(case, op, res)
         if v is not None:
             return Violation("wrong-result:" + v.rule, v.detail), info
     return None, info
